@@ -479,6 +479,11 @@ class Interp:
             return JsonSerDes()
         if k == "fragile":
             return FragileSerDes(self.run, self.case.get("serdes_break"))
+        if k == "passthrough":
+            # the SDK's own serializer for values that already are text: every string, the empty one included, is a payload
+            from aws_durable_execution_sdk_python.serdes import PassThroughSerDes
+
+            return PassThroughSerDes()
         return None
 
     # -- step ------------------------------------------------------------------------
